@@ -321,13 +321,13 @@ TRUSTED = ['modelled, not verified: core::char::to_digit / from_digit / to_ascii
            'Debug: the header / "(n empty rows skipped)" text is modelled (debug_string) and compared by correspondence; the theorems speak '
            'about the rows (debug_rows)']
 PARTIAL = []
-LEVEL_TEXT = ('Proof: 28 Coq theorems over the Gallina model of MockDisplay (coq/Model/Mockdisplay.v: the 4096-cell array with the index '
+LEVEL_TEXT = ('Proof: 30 Coq theorems over the Gallina model of MockDisplay (coq/Model/Mockdisplay.v: the 4096-cell array with the index '
               'arithmetic as written, both flags, every panic as a value). After ANY operation history that runs to its end get_pixel(p) is the '
               'content given by the last event at p and None elsewhere and outside the display (induction over the history); drawing panics '
               'exactly at the first pixel outside the display / drawn twice while the respective check is on, and with no other panic kind; '
               'affected_area is zero when nothing is touched, contains every touched cell, is contained in every rectangle that does, and each of '
               'its sides touches a touched cell; == holds exactly when all 64x64 cells agree; diff never panics, colours exactly the differing cells '
-              'GREEN/RED/BLUE and is empty exactly when ==; swap_xy mirrors; for all 12 ColorMapping tables (regenerated from color_mapping.rs on '
+              'GREEN/RED/BLUE and is empty exactly when ==; swap_xy mirrors, map applies its function cell by cell, from_points sets exactly the listed points; for all 12 ColorMapping tables (regenerated from color_mapping.rs on '
               'every run) colour->char->colour and char->colour->char are identities on the documented sets, from_pattern puts the colour of the '
               'character in row y, column x into cell (x,y), Debug prints a pattern back (padded, trailing blank rows dropped) and parsing '
               'Debug output gives back the same display. Model and code are tied by running both on the same histories / patterns on every run.')
